@@ -11,6 +11,9 @@ package main
 //   sequential one goroutine, every call must be admitted whatever the previous one did
 //   handshake  an execution is held inside the delegate: every call meanwhile must be refused with an error
 //              and must not reach the delegate; once it has finished (nil/error/panic) the next is admitted
+//   lingering  an execution is held; an overlapping call is made from its own goroutine and NOT waited for (the underlying job's
+//              Description() blocks once if the wrapper happens to call it); the execution finishes: the next call must be admitted
+//              whether or not the overlapping call has returned yet
 //   scheduler  the wrapped job on a real scheduler (unbounded mode) with an interval shorter than its duration
 
 import (
@@ -115,6 +118,31 @@ func (u *isoUnder) Execute(ctx context.Context) error {
 	}
 	u.byOut[0].Add(1)
 	return nil
+}
+
+// isoSlowDesc is an underlying job whose Description() can be armed to block ONCE on a channel (a description that formats
+// something slow, takes a lock, asks a remote registry …). Execute is isoUnder's.
+type isoSlowDesc struct {
+	*isoUnder
+	armed       atomic.Bool
+	descEntered chan struct{} // capacity 1
+	descRelease chan struct{} // closed to let the blocked Description go
+	descCalls   atomic.Int64
+}
+
+func (d *isoSlowDesc) Description() string {
+	d.descCalls.Add(1)
+	if d.armed.CompareAndSwap(true, false) {
+		select {
+		case d.descEntered <- struct{}{}:
+		default:
+		}
+		select {
+		case <-d.descRelease:
+		case <-time.After(30 * time.Second):
+		}
+	}
+	return "job with a slow description"
 }
 
 // isoCall makes one call and classifies it: "o" "e" "p" = the delegate ran and this is what came back,
@@ -411,6 +439,124 @@ func isolatedRun(args []string) int {
 	}
 	if m := u.maxSeen.Load(); m > 1 && len(viol) == 0 {
 		flagV("%d executions of the underlying job were in flight at the same time", m)
+	}
+
+	// ---- lingering refused call: "as soon as an execution finishes … the next call is admitted" — whatever OTHER calls are doing.
+	// A is held inside the underlying job. B overlaps it (own goroutine, not waited for: it may return at once, or linger inside the
+	// wrapper, e.g. in the underlying job's Description(), which blocks once here if it is called at all). A finishes and its Execute
+	// returns. Now nothing is running: C must be admitted, whether or not B has come back. Only then is Description released and B joined.
+	lingerN := *hsN / 10
+	if lingerN < 12 {
+		lingerN = 12
+	}
+	dist["lingering"] = map[string]int{}
+	for i := 0; i < lingerN; i++ {
+		const dl = 10 * time.Second
+		ud := &isoSlowDesc{isoUnder: &isoUnder{plan: []isoPlan{{out: 'o'}}}, descEntered: make(chan struct{}, 1), descRelease: make(chan struct{})}
+		jd := job.NewIsolatedJob(ud)
+		h := &isoHold{entered: make(chan struct{}), release: make(chan byte)}
+		ud.hold.Store(h)
+		resA := make(chan string, 1)
+		go func() { c, _ := isoCall(jd); resA <- c }()
+		select {
+		case <-h.entered:
+		case c := <-resA:
+			flagV("with nothing running a call was not admitted: %s (lingering %d)", c, i)
+			continue
+		case <-time.After(dl):
+			flagV("a call neither entered the underlying job nor returned within %v (lingering %d)", dl, i)
+			ud.hold.Store(nil)
+			continue
+		}
+		ud.hold.Store(nil)
+		// B overlaps A
+		ud.armed.Store(true)
+		resB := make(chan string, 1)
+		go func() { c, _ := isoCall(jd); resB <- c }()
+		bState, bRes := "neither returned nor reached Description within 10s", ""
+		select {
+		case bRes = <-resB:
+			bState = "had returned"
+			evaluations++
+			if bRes != "r" {
+				if len(bRes) == 1 {
+					bRes = "it ran the underlying job (" + bRes + ")"
+				}
+				flagV("a call made while an execution was in progress was not refused: %s (lingering %d)", bRes, i)
+			} else {
+				contended++
+			}
+		case <-ud.descEntered:
+			bState = "was still inside Execute (in the underlying job's Description())"
+		case <-time.After(dl):
+		}
+		dist["lingering"]["when the execution finished the overlapping call "+bState]++
+		// A finishes
+		o := "oep"[i%3]
+		how := map[byte]string{'o': "nil", 'e': "error", 'p': "panic"}[o]
+		h.release <- o
+		select {
+		case c := <-resA:
+			evaluations++
+			if c != string(o) {
+				flagV("the held call came back as %q, the underlying job did %q (lingering %d)", c, string(o), i)
+			}
+		case <-time.After(dl):
+			flagV("the held call did not return within %v after the underlying job finished (lingering %d)", dl, i)
+			close(ud.descRelease)
+			continue
+		}
+		// nothing is running: C must be admitted. (B is somewhere between its call and its return; it runs the job only if it is itself
+		// admitted, which the final invocation count shows: the verdict is given after B has been joined.)
+		resC := make(chan string, 1)
+		go func() { c, _ := isoCall(jd); resC <- c }()
+		c := ""
+		select {
+		case c = <-resC:
+		case <-time.After(dl):
+		}
+		cHung := c == ""
+		evaluations++
+		close(ud.descRelease)
+		if bRes == "" {
+			select {
+			case bRes = <-resB:
+				evaluations++
+				if len(bRes) > 1 {
+					flagV("%s (lingering %d, overlapping call)", bRes, i)
+				}
+			case <-time.After(dl):
+				flagV("an overlapping call did not return within %v after everything else had finished (lingering %d)", dl, i)
+			}
+		}
+		if cHung {
+			select {
+			case c = <-resC:
+			case <-time.After(dl):
+			}
+		}
+		inv := ud.inv.Load()
+		// inv == 1 and B refused: the underlying job ran exactly once in this whole case (A), and A's Execute had returned before C was called
+		onlyA := inv == 1 && bRes == "r"
+		switch {
+		case cHung && onlyA:
+			flagV("after the only execution had finished (%s) and its Execute had returned, the next call neither ran the underlying job nor returned within %v "+
+				"(an overlapping call made during that execution %s when it finished) (lingering %d)", how, dl, bState, i)
+		case c == "r" && onlyA:
+			flagV("the call made after an execution had finished (%s) and its Execute had returned was refused although no execution was in progress: "+
+				"the gate did not reopen as soon as the execution finished (an overlapping call made during that execution %s when it finished and was itself refused; "+
+				"the underlying job was invoked once in all, Description() %d time(s)) (lingering %d)", how, bState, ud.descCalls.Load(), i)
+			dist["lingering"]["next call refused with nothing running"]++
+		case c == "r" || cHung:
+			dist["lingering"]["next call refused while the late overlapping call was executing (inconclusive)"]++
+		case len(c) > 1:
+			flagV("%s (lingering %d, call after the execution finished)", c, i)
+		default:
+			dist["lingering"]["next call admitted after "+how]++
+		}
+		if m := ud.maxSeen.Load(); m > 1 {
+			flagV("%d executions of the underlying job were in flight at the same time (lingering %d)", m, i)
+		}
 	}
 
 	// ---- scheduler: unbounded mode, interval shorter than the job
